@@ -114,6 +114,7 @@ func (root *Root) ResolveExecutable(
 			subMap, _ := result["data"].(map[string]interface{})
 			for _, val := range subMap {
 				if sub, _ := val.(*Subscription); sub != nil {
+					sub.vars = opVars
 					root.subscribe(sub)
 					found = true
 				}
